@@ -169,6 +169,10 @@ func main() {
 		selftestDeterminism(os.Args[2:])
 		return
 	}
+	if os.Args[1] == "selftest-shims" {
+		selftestShims()
+		return
+	}
 	prop := os.Args[1]
 	mode := "quick"
 	if len(os.Args) > 2 {
@@ -480,6 +484,46 @@ func ruleFor(prop string) string {
 		}
 	}
 	return "seeded programs and schedules; non-trivial = at least one preemption and the property's interesting condition reached; distinct = distinct (program hash, preemption signature)"
+}
+
+// selftestShims runs tally's own test suite against the mechanically rewritten
+// copy of /repo with the shims in pass-through mode (no simulation active): the
+// rewrite and the shim packages must not change what the code does. Left out:
+// m3/thriftudp (its tests name net.UDPConn, which the rewritten package no
+// longer uses) and one allocation-count test (the shims allocate).
+func selftestShims() {
+	scratch, err := os.MkdirTemp("", "verif-shims-")
+	if err != nil {
+		infra("%v", err)
+	}
+	defer os.RemoveAll(scratch)
+	build(scratch, false)
+	cmd := exec.Command("go1.26.8", "test", "-vet=off", "-count=1", "-timeout", "600s", "-v",
+		"-skip", "^TestVerifyCachedTaggedScopesAlloc$",
+		".", "./instrument", "./m3", "./m3/customtransports", "./multi", "./prometheus", "./statsd")
+	cmd.Dir = filepath.Join(scratch, "tally")
+	out, err := cmd.CombinedOutput()
+	pass, fail := 0, 0
+	for _, l := range strings.Split(string(out), "\n") {
+		t := strings.TrimSpace(l)
+		if strings.HasPrefix(t, "--- PASS") {
+			pass++
+		}
+		if strings.HasPrefix(t, "--- FAIL") {
+			fail++
+			fmt.Println(t)
+		}
+	}
+	fmt.Printf("selftest-shims: %d of tally's own tests passed, %d failed, against the rewritten copy with pass-through shims\n", pass, fail)
+	if err != nil || fail > 0 {
+		tail := string(out)
+		if len(tail) > 3000 {
+			tail = tail[len(tail)-3000:]
+		}
+		fmt.Println(tail)
+		os.RemoveAll(scratch)
+		os.Exit(2)
+	}
 }
 
 func selftestDeterminism(ids []string) {
